@@ -30,7 +30,10 @@ def bounded_unit(name, func, pid, search, describe, props=None, timeout=900):
         from . import sym
 
         def body():
-            bad, n = search()
+            import contextlib
+            import io
+            with contextlib.redirect_stderr(io.StringIO()):      # progress bars of real solver runs
+                bad, n = search()
             sym.check(f"{pid}.bounded.{describe}", z3.BoolVal(not bad), note=f"{n} evaluations; " + (str(bad[:2]) if bad else "no failing input"))
         obls, n_ = sym.explore(body)
         return dict(obls=obls, paths=n_, sources=[], consistent=True)
